@@ -213,14 +213,16 @@ Proof.
         cbn [read_from_loop]. rewrite w_available_redest, Ea. rsimpl.
         rewrite En, (H1 d Hd). rewrite (H2 _ (dpush_nf ext1 d)), dpush_dpush. reflexivity.
   - destruct (read1 (w_available w) s) as [[b e] s'] eqn:Er.
+    (* the state after the bytes were taken, whatever dirty flag the model gives it *)
+    set (w1 := set_buf w (w_buf w ++ b) (w_dirty w || (0 <? len b))).
     destruct e as [[| |]|].
-    + eexists _, (set_buf (set_buf w (w_buf w ++ b) (w_dirty w)) (w_buf (set_buf w (w_buf w ++ b) (w_dirty w))) true), _, [].
+    + eexists _, (set_buf w1 (w_buf w1) true), _, [].
       intros d Hd. cbn [read_from_loop]. rewrite w_available_redest, Ea, Er, dpush_nil by assumption. reflexivity.
-    + eexists _, (set_buf w (w_buf w ++ b) (w_dirty w)), _, [].
+    + eexists _, w1, _, [].
       intros d Hd. cbn [read_from_loop]. rewrite w_available_redest, Ea, Er, dpush_nil by assumption. reflexivity.
-    + eexists _, (set_buf w (w_buf w ++ b) (w_dirty w)), _, [].
+    + eexists _, w1, _, [].
       intros d Hd. cbn [read_from_loop]. rewrite w_available_redest, Ea, Er, dpush_nil by assumption. reflexivity.
-    + destruct (IH s' (total + len b) (set_buf w (w_buf w ++ b) (w_dirty w))) as (r & w2 & s'' & ext & H).
+    + destruct (IH s' (total + len b) w1) as (r & w2 & s'' & ext & H).
       exists r, w2, s'', ext. intros d Hd. cbn [read_from_loop]. rewrite w_available_redest, Ea, Er.
       rsimpl. rewrite <- (H d Hd). reflexivity.
 Qed.
